@@ -29,6 +29,15 @@ func New(name, dir string) Keybase {
 }
 
 func (kb *lazyKeybase) GetCoinbase() (KeyPair, error) {
+	if kb.coinbase.PrivKeyArmor != "" {
+		// the cached key may have been deleted or re-encrypted since it was cached
+		kp, err := kb.Get(kb.coinbase.GetAddress())
+		if err == nil {
+			kb.coinbase = kp
+		} else {
+			kb.coinbase = KeyPair{}
+		}
+	}
 	if kb.coinbase.PrivKeyArmor == "" {
 		kps, err := kb.List()
 		if err != nil {
